@@ -153,3 +153,11 @@ func (atxn *AllocTxn) ZeroBlock(blkno common.Bnum) {
 	}
 	buf.SetDirty()
 }
+
+// Modified reports whether the transaction has written, allocated or
+// freed anything.
+func (atxn *AllocTxn) Modified() bool {
+	return atxn.Op.NDirty() > 0 ||
+		len(atxn.allocInums)+len(atxn.allocBnums)+
+			len(atxn.freeInums)+len(atxn.freeBnums) > 0
+}
